@@ -49,6 +49,8 @@ type c11Scenario struct {
 	overrides string // what r2 overrides
 	usesExtra bool   // the extra client header reaches the party (forwarded or rendered)
 	extraHow  string
+	payloadUsesPath bool
+	twin      string // r2 uses a second catalogue mechanism that differs from the first only in this endpoint header value
 }
 
 func c11Digest(req *http.Request, body []byte) string {
@@ -210,7 +212,15 @@ func c11Build(s *simcore.Source) c11Scenario {
 			`{"sub":"{{ .Subject.ID }}","id":"{{ .Values.v1 }}"}`,
 			`{{ .Subject.ID }}{{ .Values.v1 }}`,
 			`{"role":"{{ .Subject.Attributes.role }}"}`,
+			`{"sub":"{{ .Subject.ID }}","path":"{{ .Request.URL.Path }}"}`,
+			`{"sub":"{{ .Subject.ID }}","extra":"{{ .Request.Header "X-Extra" }}"}`,
 		}, "payload")
+		if strings.Contains(payload, "X-Extra") {
+			sc.usesExtra, sc.extraHow = true, "rendered into the payload"
+		}
+		if strings.Contains(payload, ".Request.URL.Path") {
+			sc.payloadUsesPath = true
+		}
 		for _, k := range vkeys {
 			if k == "v4" {
 				sc.usesExtra, sc.extraHow = true, "rendered into a value"
@@ -289,8 +299,28 @@ func c11Build(s *simcore.Source) c11Scenario {
 			"        authentication_data_source:\n          - header: Authorization\n            scheme: Bearer\n        subject:\n          id: sub\n          attributes: \"@this\"\n        cache_ttl: 5m\n" + fwd +
 			"  finalizers:\n    - id: echo\n      type: header\n      config:\n        headers:\n          X-User: \"{{ .Subject.ID }}\"\n          X-Digest: \"{{ .Subject.Attributes.digest }}\"\n"
 		step := "    - authenticator: mut\n    - finalizer: echo"
-		sc.rules = fmt.Sprintf(c11RuleTpl, step, step)
-		sc.describe = fmt.Sprintf("headers=%v fwd=%v", keys, fwd != "")
+		step2 := step
+		if s.Draw(3, "twin-mechanism") == 2 {
+			// a second catalogue entry on the same endpoint that differs only in the value of one header (spelled in lower case, as yaml authors do)
+			sc.twin = "x-tenant"
+			twinOf := func(id, tenant string) string {
+				h2 := map[string]string{}
+				for k, v := range hdrs {
+					h2[k] = v
+				}
+				h2["x-tenant"] = tenant
+				k2 := append(append([]string{}, keys...), "x-tenant")
+				return "    - id: " + id + "\n      type: generic\n      config:\n        identity_info_endpoint:\n          url: http://idp/userinfo\n          method: GET\n          headers:\n" +
+					yamlMap("            ", k2, h2) +
+					"        authentication_data_source:\n          - header: Authorization\n            scheme: Bearer\n        subject:\n          id: sub\n          attributes: \"@this\"\n        cache_ttl: 5m\n" + fwd
+			}
+			sc.mech = "mechanisms:\n  authenticators:\n" + twinOf("mut", "a") + twinOf("mut2", "b") +
+				"  finalizers:\n    - id: echo\n      type: header\n      config:\n        headers:\n          X-User: \"{{ .Subject.ID }}\"\n          X-Digest: \"{{ .Subject.Attributes.digest }}\"\n"
+			step2 = "    - authenticator: mut2\n    - finalizer: echo"
+			sc.overrides = "twin-mechanism(x-tenant)"
+		}
+		sc.rules = fmt.Sprintf(c11RuleTpl, step, step2)
+		sc.describe = fmt.Sprintf("headers=%v fwd=%v twin=%q", keys, fwd != "", sc.twin)
 	case "introspection":
 		sc.party = "idp"
 		hkeys := drawKeys(s, c11StaticHeaderPool, 0, "headers")
@@ -523,7 +553,7 @@ func c11Classify(sc c11Scenario, reqs []c11Req, obsA, obsB []c11Obs, i int) stri
 		if p.user != q.user && sc.kind != "client-credentials" {
 			diff = append(diff, "subject")
 		}
-		if p.id != q.id && (sc.kind == "remote-authorizer" || sc.kind == "contextualizer") {
+		if (p.id != q.id || (sc.payloadUsesPath && p.rule != q.rule)) && (sc.kind == "remote-authorizer" || sc.kind == "contextualizer") {
 			diff = append(diff, "captured-value")
 		}
 		if p.rule != q.rule && sc.overrides != "" {
